@@ -140,8 +140,11 @@ class BasicObligationChecker(ObligationChecker):
                     max_age = int(attrs.get("max_age", 0))
                 except Exception:
                     max_age = 0
+                age_raw = ctx.get("reauth_age_seconds")
+                if age_raw is None:
+                    return False, "reauth"  # unknown age: never re-authenticated
                 try:
-                    reauth_age = int(ctx.get("reauth_age_seconds", 0) or 0)
+                    reauth_age = int(age_raw)
                 except Exception:
                     return False, "reauth"  # ill-typed age counts as unmet (fail closed)
                 if reauth_age > max_age:
